@@ -248,4 +248,62 @@ example : (readC ⟨[1, 2, 3], [], 2048, 4096, 6144⟩ (fun _ => ⟨0, 0, []⟩)
           (readC ⟨[1, 2, 3], [⟨0, 5, 9⟩], 2048, 1, 100000⟩ (fun _ => ⟨0, 0, []⟩) 2 99999).isOk = true := by
   decide
 
+/-- a PARAM.SFO key is read through a 512-byte window: whatever the file holds, no key longer than
+    that is ever built in memory -/
+theorem sfo_key_bounded (b : Bytes) (off : Nat) (k : Bytes) (h : cstrAt b off = some k) : k.length < Gen.fs_sfoMaxKeyLen := by
+  unfold cstrAt at h
+  simp only at h
+  split at h
+  · rename_i hc
+    simp only [Option.some.injEq] at h
+    subst h
+    -- takeWhile of a list that contains 0 is strictly shorter than the list
+    generalize hl : (b.drop off).take Gen.fs_sfoMaxKeyLen = l at hc
+    have hlen : l.length ≤ Gen.fs_sfoMaxKeyLen := by rw [← hl]; simp [List.length_take]; omega
+    have : (l.takeWhile (· != 0)).length < l.length := by
+      clear hl hlen
+      induction l with
+      | nil => simp at hc
+      | cons a t ih =>
+        by_cases ha : a = 0
+        · simp [List.takeWhile, ha]
+        · have hc' : t.contains 0 = true := by
+            simp only [List.contains_cons, Bool.or_eq_true, beq_iff_eq] at hc
+            rcases hc with h | h
+            · exact absurd h.symm ha
+            · exact h
+          have := ih hc'
+          have hne : (a != 0) = true := by simpa using ha
+          simp only [List.takeWhile, hne, List.length_cons]; omega
+    omega
+  · cases h
+
+/-- **The value length a PARAM.SFO declares never drives memory use**: whatever the file declares and
+    however large it is, the value `sfoField` returns is shorter than `sfoMaxValueLen` (64 KiB) -/
+theorem sfo_value_bounded (b field v : Bytes) (h : sfoField b field = some v) : v.length < Gen.fs_sfoMaxValueLen := by
+  have hm : Gen.fs_sfoMaxValueLen = 65536 := rfl
+  unfold sfoField at h
+  split at h
+  · cases h
+  · split at h
+    · cases h
+    · split at h
+      · split at h
+        · cases h
+        · cases h
+        · rename_i dl dof _
+          split at h
+          · cases h
+          · rename_i hle
+            split at h
+            · simp only [Option.some.injEq] at h; subst h; decide
+            · simp only at h
+              split at h
+              · rename_i hv
+                simp only [Option.some.injEq] at h; subst h
+                have hv' := eq_of_beq hv
+                omega
+              · cases h
+      · cases h
+
 end Ps3.Props.C04
